@@ -205,6 +205,7 @@ class Rule(
         return self
 
     def assert_applies(self, evaluable: EvaluableArchitecture) -> None:
+        self._assert_anything_only_used_with_should_not()
         self._configuration = self._convert_aliases(self._configuration)
         self._assert_required_configuration_present()
 
@@ -294,6 +295,9 @@ class Rule(
 
             raise ImproperlyConfigured(error_message)
 
+        self._assert_anything_only_used_with_should_not()
+
+    def _assert_anything_only_used_with_should_not(self) -> None:
         if (
             self._configuration.rule_object_anything
             and not self._configuration.should_not
